@@ -11,13 +11,23 @@ package main
 //   killat  a command is started and SIGKILLed after a generated delay
 //   burst   2-3 long-lived commands started at the same moment (the test-then-write window)
 //   plant   the file a process killed between lock file creation and pid write leaves behind (empty lock file)
+//   stall   an HTTP request is put in flight on a serving webui (complete headers, unfinished body) and kept there:
+//           a later SIGINT / SIGTERM starts the graceful shutdown, which waits for that request, so the process stays
+//           alive, still working on its cache ("asked"); the next `end` of that process lets the request end
 // After every step: exit status, class of the stderr message (with the holder it names), content of
-// .git/git-bug/lock, and which long-lived processes are still running. Process numbers are spawn order.
+// .git/git-bug/lock, the temporary lock files .git/git-bug/lock.<pid> present, whether anything else below .git
+// changed during the step (looked at while a holder lives), and which long-lived processes are still running.
+// Process numbers are spawn order.
 
 import (
+	"bufio"
+	"crypto/sha256"
 	"encoding/json"
 	"fmt"
+	"io"
+	"io/fs"
 	"net"
+	"net/http"
 	"os"
 	"os/exec"
 	"path/filepath"
@@ -143,8 +153,11 @@ func c19GenCase(r *Rand, tier string) c19Input {
 			switch {
 			case x < 40:
 				in.Steps = append(in.Steps, c19GenCmd(r, identity))
-			case x < 55:
+			case x < 52:
 				in.Steps = append(in.Steps, c19Step{Op: "hold", Kind: holdKind()})
+			case x < 57:
+				// (no effect unless the holder is a webui; an `end` by signal then leaves it alive, shutting down)
+				in.Steps = append(in.Steps, c19Step{Op: "stall", Slot: r.Intn(4)})
 			case x < 65:
 				in.Steps = append(in.Steps, c19GenKillAt(r, true))
 			default:
@@ -167,9 +180,39 @@ func c19GenCase(r *Rand, tier string) c19Input {
 					in.Steps = append(in.Steps, c19GenCmd(r, identity))
 				}
 			}
-		case x < 33:
+		case x < 47:
+			// the holder is asked to stop while it serves a request: it lives on until the request ends, and until
+			// then everybody else is refused
 			if live == 1 {
 				in.Steps = append(in.Steps, c19Step{Op: "end", Slot: 0, How: hows[r.Intn(len(hows))]})
+				in.Steps = append(in.Steps, c19Step{Op: "end", Slot: 0, How: "kill"}) // (in case the first one only asked)
+			}
+			in.Steps = append(in.Steps, c19Step{Op: "hold", Kind: "webui"}, c19Step{Op: "stall"},
+				c19Step{Op: "end", How: hows[r.Intn(2)]})
+			for k := r.Range(1, 3); k > 0; k-- {
+				switch y := r.Intn(10); {
+				case y < 6:
+					in.Steps = append(in.Steps, c19GenCmd(r, identity))
+				case y < 8:
+					in.Steps = append(in.Steps, c19Step{Op: "hold", Kind: holdKind()})
+				default:
+					in.Steps = append(in.Steps, c19GenKillAt(r, true))
+				}
+			}
+			if r.Chance(4, 5) {
+				how := "int" // = let the request end
+				if r.Chance(1, 5) {
+					how = "kill"
+				}
+				in.Steps = append(in.Steps, c19Step{Op: "end", How: how})
+				if r.Chance(1, 2) {
+					in.Steps = append(in.Steps, c19GenCmd(r, identity))
+				}
+			}
+		case x < 55:
+			if live == 1 {
+				in.Steps = append(in.Steps, c19Step{Op: "end", Slot: 0, How: hows[r.Intn(len(hows))]})
+				in.Steps = append(in.Steps, c19Step{Op: "end", Slot: 0, How: "kill"})
 			}
 			in.Steps = append(in.Steps, c19Step{Op: "plant"})
 			for k := r.Range(1, 2); k > 0; k-- {
@@ -199,7 +242,16 @@ func (c19Driver) Gen(r *Rand, tier string) []json.RawMessage {
 		{Steps: []c19Step{{Op: "usernew"}, {Op: "cmd", Kind: "new"}, {Op: "break"}, {Op: "cmd", Kind: "ls"}, {Op: "cmd", Kind: "webui-busy"}, {Op: "cmd", Kind: "new"}, {Op: "cmd", Kind: "ls"}}},
 		{Steps: []c19Step{{Op: "cmd", Kind: "ls"}, {Op: "hold", Kind: "webui"}, {Op: "burst", N: 3}, {Op: "end", How: "int"}, {Op: "burst", N: 3}}},
 		{Steps: []c19Step{{Op: "cmd", Kind: "ls"}, {Op: "plant"}, {Op: "cmd", Kind: "ls"}, {Op: "cmd", Kind: "ls"}}},
+		// asked to stop while serving: refused, refused, the request ends, free
+		{Steps: []c19Step{{Op: "cmd", Kind: "ls"}, {Op: "hold", Kind: "webui"}, {Op: "stall"}, {Op: "end", How: "int"}, {Op: "cmd", Kind: "ls"},
+			{Op: "hold", Kind: "webui"}, {Op: "end", How: "int"}, {Op: "cmd", Kind: "ls"}}},
+		{Steps: []c19Step{{Op: "usernew"}, {Op: "hold", Kind: "webui"}, {Op: "stall"}, {Op: "end", How: "term"}, {Op: "cmd", Kind: "new"},
+			{Op: "cmd", Kind: "users"}, {Op: "end", How: "term"}, {Op: "cmd", Kind: "new"}}},
+		// refused attempts of every family change nothing
+		{Steps: []c19Step{{Op: "usernew"}, {Op: "hold", Kind: "webui"}, {Op: "cmd", Kind: "ls"}, {Op: "cmd", Kind: "users"}, {Op: "cmd", Kind: "new"},
+			{Op: "hold", Kind: "edit"}, {Op: "cmd", Kind: "webui-busy"}, {Op: "end", How: "int"}, {Op: "cmd", Kind: "ls"}}},
 	}
+	// (the request that never ends — the shutdown gives up after 30 s, `end giveup` — is run from corpus/C19 only: 35 s a case)
 	for _, f := range fixed {
 		res = append(res, mustJSON(f))
 	}
@@ -220,6 +272,10 @@ type c19Proc struct {
 	pid      int
 	port     int
 	errPath  string
+	outPath  string
+	conn     net.Conn // a request put in flight by the harness and not finished (webui)
+	asked    string   // the signal that asked it to stop while that request was in flight; it has not exited since
+	askedAt  time.Time
 	mark     string
 	gofile   string
 	done     chan struct{}
@@ -233,6 +289,8 @@ type c19Env struct {
 	pids                 map[int]int // pid -> id
 	ready                []*c19Proc  // long-lived processes observed serving and not yet ended
 	identity, broken     bool
+	before               string // snapshot taken when the current step began, "" if there was no live holder then
+	askExpired           bool   // something was observed later than 25 s after a webui was asked to stop: its shutdown gives up after 30 s
 	nextPort, nextID     int
 	slowest              time.Duration // longest start-up (spawn to serving / exit) seen so far in this case
 	pidReuse             string        // set when a pid of a reaped process was seen alive again (assumption violated)
@@ -300,9 +358,16 @@ func (e *c19Env) spawn(fam, kind string, long bool, args []string, extraEnv []st
 	p.errPath = filepath.Join(e.dir, fmt.Sprintf("p%d.err", id))
 	p.mark = filepath.Join(e.dir, fmt.Sprintf("p%d.mark", id))
 	p.gofile = filepath.Join(e.dir, fmt.Sprintf("p%d.go", id))
+	p.outPath = filepath.Join(e.dir, fmt.Sprintf("p%d.out", id))
 	errf, err := os.Create(p.errPath)
 	if err != nil {
 		panic(err)
+	}
+	var outf *os.File
+	if long {
+		if outf, err = os.Create(p.outPath); err != nil {
+			panic(err)
+		}
 	}
 	cmd := exec.Command(e.bin, args...)
 	cmd.Dir = e.repo
@@ -314,12 +379,18 @@ func (e *c19Env) spawn(fam, kind string, long bool, args []string, extraEnv []st
 	}, extraEnv...)
 	cmd.Stdin = nil
 	cmd.Stdout = nil
+	if outf != nil {
+		cmd.Stdout = outf
+	}
 	cmd.Stderr = errf
 	cmd.SysProcAttr = &syscall.SysProcAttr{Setpgid: true, Pdeathsig: syscall.SIGKILL}
 	if err := c19Start(cmd); err != nil {
 		panic(err)
 	}
 	errf.Close()
+	if outf != nil {
+		outf.Close()
+	}
 	p.cmd = cmd
 	p.pid = cmd.Process.Pid
 	e.procs = append(e.procs, p)
@@ -354,6 +425,53 @@ func (p *c19Proc) destroy() {
 		_ = p.cmd.Process.Kill() // os.Process refuses to signal after Wait has returned
 	}
 	<-p.done
+	p.hangUp()
+}
+
+func (p *c19Proc) hangUp() {
+	if p.conn != nil {
+		_ = p.conn.Close()
+		p.conn = nil
+	}
+}
+
+// Puts a request in flight on a serving webui and leaves it there. A first, complete request on the same
+// connection makes sure that the server has accepted the connection and serves it; the second one has all its
+// headers and an unfinished body, so its handler sits reading the body until the connection is closed.
+func (p *c19Proc) stall() error {
+	c, err := net.DialTimeout("tcp", fmt.Sprintf("127.0.0.1:%d", p.port), 2*time.Second)
+	if err != nil {
+		return err
+	}
+	_ = c.SetDeadline(time.Now().Add(10 * time.Second))
+	body := `{"query":"{__typename}"}`
+	_, err = fmt.Fprintf(c, "POST /graphql HTTP/1.1\r\nHost: localhost\r\nContent-Type: application/json\r\nContent-Length: %d\r\n\r\n%s", len(body), body)
+	if err == nil {
+		var resp *http.Response
+		if resp, err = http.ReadResponse(bufio.NewReader(c), nil); err == nil {
+			_, err = io.Copy(io.Discard, resp.Body)
+			resp.Body.Close()
+			if err == nil && resp.Close {
+				err = fmt.Errorf("the server closes the connection")
+			}
+		}
+	}
+	if err == nil {
+		_, err = c.Write([]byte("POST /graphql HTTP/1.1\r\nHost: localhost\r\nContent-Type: application/json\r\nContent-Length: 1000\r\n\r\n{"))
+	}
+	if err != nil {
+		c.Close()
+		return err
+	}
+	_ = c.SetDeadline(time.Time{})
+	time.Sleep(30 * time.Millisecond) // (the server reads the headers; a shutdown that comes before that waits as well)
+	p.conn = c
+	return nil
+}
+
+func (p *c19Proc) stdout() string {
+	b, _ := os.ReadFile(p.outPath)
+	return string(b)
 }
 
 func (p *c19Proc) exitClass() string {
@@ -397,6 +515,57 @@ func (e *c19Env) msgClass(p *c19Proc) string {
 }
 
 func (e *c19Env) lockPath() string { return filepath.Join(e.repo, ".git", "git-bug", "lock") }
+
+// temporary lock files lock.<pid> in .git/git-bug, by process number (0 = not a pid of this case), sorted
+func (e *c19Env) tmpLocks() ([]int, []string) {
+	ents, _ := os.ReadDir(filepath.Dir(e.lockPath()))
+	var ids []int
+	var names []string
+	for _, en := range ents {
+		n := en.Name()
+		if !strings.HasPrefix(n, "lock") || n == "lock" {
+			continue
+		}
+		names = append(names, n)
+		pid, err := strconv.Atoi(strings.TrimPrefix(n, "lock."))
+		if err != nil {
+			ids = append(ids, 0)
+		} else {
+			ids = append(ids, e.pids[pid]) // unknown pid -> 0
+		}
+	}
+	sort.Ints(ids)
+	return ids, names
+}
+
+// everything below .git except the lock file and the temporary lock files (those are observed by themselves):
+// names, sizes and contents
+func (e *c19Env) snapshot() string {
+	h := sha256.New()
+	root := filepath.Join(e.repo, ".git")
+	_ = filepath.WalkDir(root, func(path string, d fs.DirEntry, err error) error {
+		if err != nil {
+			fmt.Fprintf(h, "ERR %s\n", path)
+			return nil
+		}
+		rel, _ := filepath.Rel(root, path)
+		if filepath.Dir(rel) == "git-bug" && strings.HasPrefix(d.Name(), "lock") {
+			return nil
+		}
+		if d.IsDir() {
+			fmt.Fprintf(h, "D %s\n", rel)
+			return nil
+		}
+		b, err := os.ReadFile(path)
+		if err != nil {
+			fmt.Fprintf(h, "ERR %s\n", rel)
+			return nil
+		}
+		fmt.Fprintf(h, "F %s %d %x\n", rel, len(b), sha256.Sum256(b))
+		return nil
+	})
+	return fmt.Sprintf("%x", h.Sum(nil))
+}
 
 func (e *c19Env) readLock() (string, string) {
 	b, err := os.ReadFile(e.lockPath())
@@ -565,11 +734,13 @@ exit 1
 `
 
 type c19StepObs struct {
-	Op     string   `json:"op"`
-	Detail string   `json:"detail,omitempty"`
-	Procs  []string `json:"procs,omitempty"`
-	Lock   string   `json:"lock"`
-	Alive  []int    `json:"alive"`
+	Op      string   `json:"op"`
+	Detail  string   `json:"detail,omitempty"`
+	Procs   []string `json:"procs,omitempty"`
+	Lock    string   `json:"lock"`
+	Tmp     []string `json:"tmp_locks,omitempty"`
+	Changed bool     `json:"changed,omitempty"`
+	Alive   []int    `json:"alive"`
 }
 
 func (c19Driver) Run(raw json.RawMessage) (res Case) {
@@ -618,6 +789,23 @@ func (c19Driver) Run(raw json.RawMessage) (res Case) {
 	record := func(op, term, detail string, procs ...*c19Proc) {
 		lk, lkText := e.readLock()
 		alive := e.aliveReady()
+		tmpIDs, tmpNames := e.tmpLocks()
+		changed := false
+		if e.before != "" {
+			changed = e.snapshot() != e.before
+			e.before = ""
+		}
+		if changed {
+			tag("changed-under-holder")
+		}
+		if len(tmpIDs) > 0 {
+			tag("tmp-lock-on-disk")
+		}
+		for _, q := range e.procs {
+			if q.asked != "" && time.Since(q.askedAt) > 25*time.Second {
+				e.askExpired = true
+			}
+		}
 		if lk == "LkTorn" {
 			tag("torn-lock")
 		}
@@ -625,8 +813,8 @@ func (c19Driver) Run(raw json.RawMessage) (res Case) {
 		if _, err := fmt.Sscanf(lk, "(LkPid %d)", &lid); err == nil {
 			e.checkReuse(lid, false)
 		}
-		terms = append(terms, fmt.Sprintf("mkso (%s) %s %s", term, lk, coqNats(alive)))
-		o := c19StepObs{Op: op, Detail: detail, Lock: lkText, Alive: alive}
+		terms = append(terms, fmt.Sprintf("mkso (%s) %s %s %s %s", term, lk, coqNats(alive), coqNats(tmpIDs), coqBool(changed)))
+		o := c19StepObs{Op: op, Detail: detail, Lock: lkText, Alive: alive, Tmp: tmpNames, Changed: changed}
 		if o.Alive == nil {
 			o.Alive = []int{}
 		}
@@ -648,6 +836,7 @@ func (c19Driver) Run(raw json.RawMessage) (res Case) {
 		lk, _ := e.readLock()
 		if len(e.aliveReady()) > 0 {
 			sawLive = true
+			e.before = e.snapshot()
 		} else if strings.HasPrefix(lk, "(LkPid") {
 			sawStale = true
 		}
@@ -780,6 +969,66 @@ steps:
 				}
 			}
 			var h string
+			if p.asked != "" {
+				// shutting down, waiting for the request the harness keeps in flight: SIGKILL, or the request ends
+				// (the connection is closed) and the shutdown goes on
+				if how == "kill" {
+					h = "HKill"
+					p.sig = true
+					_ = p.cmd.Process.Kill()
+				} else if how == "giveup" {
+					// the request never ends: the shutdown gives up after 30 s and the process exits by itself
+					h = "HGiveUp"
+				} else {
+					how = "release"
+					h = map[string]string{"int": "HInt", "term": "HTerm"}[p.asked]
+					p.hangUp()
+				}
+				if !p.waitExit(60 * time.Second) {
+					p.destroy()
+					e.dropReady(p)
+					tag("truncated:end-" + how + "-asked")
+					break steps
+				}
+				p.destroy()
+				e.dropReady(p)
+				p.asked = ""
+				record("end "+how+" (was asked to stop)", fmt.Sprintf("KEnd %d %s %s %s", p.id, p.fam, h, p.exitClass()), "", p)
+				tag("end:" + how + "-asked")
+				continue
+			}
+			if how == "giveup" {
+				continue
+			}
+			if p.conn != nil && (how == "int" || how == "term") {
+				// a request is in flight: the graceful shutdown waits for it, the process lives on
+				h = map[string]string{"int": "HInt", "term": "HTerm"}[how]
+				p.sig = true
+				if how == "int" {
+					_ = p.cmd.Process.Signal(syscall.SIGINT)
+				} else {
+					_ = p.cmd.Process.Signal(syscall.SIGTERM)
+				}
+				t0 := time.Now()
+				for !p.exited() && time.Since(t0) < 10*time.Second && !strings.Contains(p.stdout(), "shutting down") {
+					time.Sleep(4 * time.Millisecond)
+				}
+				still := !p.waitExit(150 * time.Millisecond)
+				x := "XOk"
+				if still {
+					p.asked, p.askedAt = how, time.Now()
+					tag("asked:still-serving")
+				} else {
+					// (the server had not taken the request yet, or does not wait for it: an ordinary end)
+					p.destroy()
+					e.dropReady(p)
+					x = p.exitClass()
+					tag("asked:exited")
+				}
+				record("end "+how+" (request in flight)", fmt.Sprintf("KAsk %d %s %s %s %s", p.id, p.fam, h, coqBool(still), x), "", p)
+				tag("end:" + how)
+				continue
+			}
 			switch how {
 			case "int":
 				h = "HInt"
@@ -810,6 +1059,25 @@ steps:
 			e.dropReady(p)
 			record("end "+how, fmt.Sprintf("KEnd %d %s %s %s", p.id, p.fam, h, p.exitClass()), "", p)
 			tag("end:" + how)
+
+		case "stall":
+			var cands []*c19Proc
+			e.aliveReady()
+			for _, q := range e.ready {
+				if q.kind == "webui" && q.conn == nil && q.asked == "" {
+					cands = append(cands, q)
+				}
+			}
+			if len(cands) == 0 {
+				continue
+			}
+			p := cands[s.Slot%len(cands)]
+			if err := p.stall(); err != nil {
+				tag("stall-failed")
+				continue
+			}
+			record("stall", fmt.Sprintf("KStall %d", p.id), "request in flight: headers sent, body unfinished", p)
+			tag("stall")
 
 		case "killat":
 			situation()
@@ -968,6 +1236,9 @@ steps:
 	}
 	if e.pidReuse != "" {
 		return Case{Skip: "pid reuse, outside the model's assumption: " + e.pidReuse}
+	}
+	if e.askExpired {
+		return Case{Skip: "the case went on for more than 25 s after a webui was asked to stop (its shutdown gives up after 30 s)"}
 	}
 	// a Go program does not die from a signal by itself (panics and fatal errors exit with status 2): a process found
 	// killed by a signal this harness never sent was killed by somebody else on the machine
